@@ -288,11 +288,20 @@ func (b *VtteBox) Type() string {
 
 // DecodeVtte - box-specific decode
 func DecodeVtte(hdr BoxHeader, startPos uint64, r io.Reader) (Box, error) {
+	// consume the (normally empty) payload so that it is not parsed as following boxes
+	if _, err := readBoxBody(r, hdr); err != nil {
+		return nil, err
+	}
 	return &VtteBox{}, nil
 }
 
 // DecodeVtteSR - box-specific decode
 func DecodeVtteSR(hdr BoxHeader, startPos uint64, sr bits.SliceReader) (Box, error) {
+	// consume the (normally empty) payload so that it is not parsed as following boxes
+	sr.SkipBytes(hdr.payloadLen())
+	if err := sr.AccError(); err != nil {
+		return nil, err
+	}
 	return &VtteBox{}, nil
 }
 
